@@ -95,6 +95,10 @@ def impl_loc_op(line):
             l = parse_loc(tk)
             rs, re_, st = tk.int(), tk.int(), tk.strand()
             return "ok " + show_loc(l.relative_interval_to_parent_location(rs, re_, st))
+        if op == "locrel":
+            a = parse_loc(tk)
+            b = parse_loc(tk)
+            return "ok " + show_loc(a.location_relative_to(b, optimize_blocks=tk.bool()))
         if op == "optimize":
             return "ok " + show_loc(parse_loc(tk).optimize_blocks())
         if op == "optcombine":
